@@ -92,7 +92,7 @@ def measure(F):
             return -SAT if v.startswith("-") else SAT
         return v
 
-    s = max(1.0, float(np.abs(F).max())) if F.size else 1.0
+    s = (float(np.abs(F).max()) if F.size else 0.0) or 1.0
     cols = []
     for c in range(R):
         x = F[:, c]
@@ -111,14 +111,16 @@ def map_tensor(n, seed):
     return np.random.RandomState(7919 + 31 * seed + n).randint(-2, 3, size=MAP_SHAPE[n]).astype(np.float64)
 
 
-def run_tensor(shape, fam, seed):
+def run_tensor(shape, fam, seed, scale=0, dtype="float64"):
     rng = np.random.RandomState(seed)
     t = rng.randn(*shape)
     if fam == "sparse":
-        t = t * (rng.rand(*shape) < 0.5)
+        mask = rng.rand(*shape) < 0.5
+        mask.flat[rng.randint(mask.size)] = True        # never the zero tensor
+        t = t * mask
     elif fam == "allneg":
         t = -(np.abs(t) + 0.1)
-    return t
+    return (t * 2.0 ** scale).astype(dtype)             # exact power of two: only the units change
 
 
 # ----------------------------------------------------------------------------- execute
@@ -146,13 +148,13 @@ def exec_map(case):
 def exec_run(case):
     from tensorly.decomposition import constrained_parafac, ConstrainedCP
     n, items, r = case["n"], case["items"], case["run"]
-    t = run_tensor(tuple(r["shape"]), r["data"], case["seed"])
+    t = run_tensor(tuple(r["shape"]), r["data"], case["seed"], r["scale"], r["dtype"])
     np.random.seed(case["seed"] % (2**31))      # init='random' draws from the global stream (F-16a)
     ev = {"id": case["id"], "op": "run", "n": n, "items": items, "run": r, "raised": False, "exc": "", "factors": []}
     init = r["init"]
     if init == "user":      # entrywise non-negative user start (weights None = ones)
         urng = np.random.RandomState((case["seed"] + 17) % (2**31))
-        init = (None, [np.abs(urng.randn(d, r["rank"])) + 0.05 for d in r["shape"]])
+        init = (None, [(np.abs(urng.randn(d, r["rank"])) + 0.05).astype(r["dtype"]) for d in r["shape"]])
     opts = dict(n_iter_max=r["outer"], n_iter_max_inner=r["inner"], init=init, random_state=case["seed"] % (2**31),
                 fixed_modes=list(r["fixed"]) if r["fixed"] else None, **kwargs_of(n, items))
     try:
@@ -166,8 +168,37 @@ def exec_run(case):
     return ev
 
 
+def exec_prox(case):
+    from tensorly.tenalg.proximal import proximal_operator
+    n, items, r = case["n"], case["items"], case["run"]
+    v = run_tensor((r["rows"], r["cols"]), r["data"], case["seed"], r["scale"], r["dtype"])
+    ev = {"id": case["id"], "op": "prox", "n": n, "items": items, "run": r, "raised": False, "exc": "", "factor": {}}
+    try:
+        ev["factor"] = measure(proximal_operator(v, n_const=n, order=r["mode"], **kwargs_of(n, items)))
+    except Exception as ex:
+        ev["raised"], ev["exc"] = True, type(ex).__name__
+    return ev
+
+
+def exec_seq(case):
+    """Members run back to back in THIS process (one pool task): state surviving a call would show."""
+    return {"id": case["id"], "members": [exec_run(m) for m in case["members"]]}
+
+
 def execute(case):
-    return exec_map(case) if case["op"] == "map" else exec_run(case)
+    return {"map": exec_map, "run": exec_run, "prox": exec_prox, "seq": exec_seq}[case["op"]](case)
+
+
+def flatten(events):
+    out = []
+    for e in events:
+        out.extend(e["members"]) if "members" in e else out.append(e)
+    return out
+
+
+def shifted(items, d):
+    """The same keywords / forms / modes with every numeric parameter moved by d (booleans stay)."""
+    return [dict(it, pars=[p if it["kind"] in BOOL else p + d for p in it["pars"]]) for it in items]
 
 
 # ----------------------------------------------------------------------------- descriptors
@@ -180,7 +211,11 @@ def describe(items, n, run=None):
             # F-11a can only touch a list-valued keyword that has empty entries or comes with a second keyword
             "list_exposed": bool(has_list and (gaps or len(items) > 1)),
             # F-11b: the simplex projection turns a one-column factor into a vector
-            "rank1_simplex_prox": bool(run and run["rank"] == 1 and any(it["kind"] in RADIUS for it in items))}
+            "rank1_simplex_prox": bool(run and run["rank"] == 1 and any(it["kind"] in RADIUS for it in items)),
+            # F-11d: unit-norm projection requested on a size-1 mode (ADMM can hit exactly 0 there: 0/0)
+            "size1_normalized_sparsity": bool(run and "shape" in run and any(
+                it["kind"] == "normalized_sparsity" and any(run["shape"][m] == 1 for m in (range(n) if it["form"] == "scalar" else it["modes"]))
+                for it in items))}
 
 
 def has_hard_request(c):
@@ -221,22 +256,26 @@ def run(chk, opts):
     # ---- binding 2: accepted specifications x the run domain exported by the spec
     def setof(v):
         return sorted(v["$set"], key=str) if isinstance(v, dict) else list(v)
-    runcfgs = {}
-    for n, d in dom.items():
-        runcfgs[n] = [dict(shape=list(sh), rank=rk, init=ini, outer=o, inner=inn, data=da, fixed=list(fx), via=via)
-                      for sh, rk, ini, o, inn, da, fx, via in itertools.product(
-                          setof(d["shapes"]), setof(d["ranks"]), setof(d["inits"]), setof(d["outer"]), setof(d["inner"]),
-                          setof(d["data"]), setof(d["fixed"]), setof(d["via"]))]
+    def draw_run(n):
+        """One run configuration drawn uniformly from the run domain the spec exported (ValidRun re-checks it)."""
+        d = dom[n]
+        while True:
+            rc = dict(shape=list(rng.choice(setof(d["shapes"]))), rank=rng.choice(setof(d["ranks"])), init=rng.choice(setof(d["inits"])),
+                      outer=rng.choice(setof(d["outer"])), inner=rng.choice(setof(d["inner"])), data=rng.choice(setof(d["data"])),
+                      fixed=list(rng.choice(setof(d["fixed"]))), via=rng.choice(setof(d["via"])),
+                      scale=rng.choice(setof(d["scales"])), dtype=rng.choice(setof(d["dtypes"])))
+            if (rc["dtype"] == "float32" and rc["scale"] not in (0, -30)) or (rc["outer"] == 0 and rc["init"] == "user"):
+                continue
+            return rc
     accepted = [c for c in specs if not c["rej"] and has_hard_request(c)]
     singles = [c for c in accepted if len(c["items"]) == 1]
     pairs = [c for c in accepted if len(c["items"]) == 2]
-    per_single = int(opts.get("per_single", 0)) or (72 if thorough else 6)
+    per_single = int(opts.get("per_single", 0)) or (60 if thorough else 6)
     npairs = int(opts.get("pairs", 0)) or (24000 if thorough else 3000)
     picked = []
     for c in singles:
-        cfgs = runcfgs[c["n"]]
-        for rc in (cfgs if per_single >= len(cfgs) else rng.sample(cfgs, per_single)):
-            picked.append((c, rc))
+        for _ in range(per_single):
+            picked.append((c, draw_run(c["n"])))
     # pairs: stratified over (kinds, forms), round-robin
     strata = {}
     for c in pairs:
@@ -251,7 +290,7 @@ def run(chk, opts):
         for key in keys:
             if depth < len(strata[key]) and got < npairs:
                 c = strata[key][depth]
-                picked.append((c, rng.choice(runcfgs[c["n"]])))
+                picked.append((c, draw_run(c["n"])))
                 got += 1
                 progressed = True
         depth += 1
@@ -262,14 +301,53 @@ def run(chk, opts):
              "seed": (chk.seed * 1000003 + k * 7919 + 11) % (2**31)}
         d.update(describe(c["items"], c["n"], rc))
         cases.append(d)
+    nrun = len(cases) - nmap
+    # ---- operator events: the real proximal_operator per mode, in every value regime
+    nprox_per = int(opts.get("per_prox", 0)) or (6 if thorough else 2)
+    for c in singles:
+        req = sorted(set(range(c["n"])) if c["items"][0]["form"] == "scalar" else set(c["items"][0]["modes"]))
+        for _ in range(nprox_per):
+            while True:
+                pr = dict(rows=rng.randint(2, 4), cols=rng.randint(1, 3), mode=rng.choice(req), data=rng.choice(setof(dom[c["n"]]["data"])),
+                          scale=rng.choice(setof(dom[c["n"]]["scales"])), dtype=rng.choice(setof(dom[c["n"]]["dtypes"])))
+                if not (pr["dtype"] == "float32" and pr["scale"] not in (0, -30)):
+                    break
+            k = len(cases)
+            cases.append({"id": "C11/prox/%06d" % k, "op": "prox", "n": c["n"], "items": c["items"], "run": pr,
+                          "seed": (chk.seed * 1000003 + k * 104729 + 5) % (2**31)})
+    nprox = len(cases) - nmap - nrun
+    # ---- sequences: same keywords / modes, different parameters, back to back in one process
+    nseq = int(opts.get("seqs", 0)) or (3000 if thorough else 500)
+    shifts = setof(dom[3]["shifts"])
+    seqbase = [c for c in singles if c["items"][0]["kind"] in (COUNT | RADIUS)]
+    rejected = {n: [c for c in specs if c["rej"] and c["n"] == n] for n in dom}
+    nmembers = 0
+    for q_ in range(nseq):
+        c = rng.choice(seqbase)
+        rc = draw_run(c["n"])
+        order = rng.sample(shifts, rng.choice([2, 3]))
+        members = []
+        if rng.random() < 0.25 and rejected[c["n"]]:      # a rejected request first: it must leave nothing behind
+            members.append(rng.choice(rejected[c["n"]])["items"])
+        members += [shifted(c["items"], d) for d in order]
+        sid = "C11/seq/%05d" % q_
+        seqcase = {"id": sid, "op": "seq", "n": c["n"], "shifts": order, "members": [
+            {"id": "%s.%d" % (sid, j), "op": "run", "n": c["n"], "items": its, "run": rc,
+             "seed": (chk.seed * 1000003 + q_ * 15485863 + j * 7919 + 3) % (2**31)} for j, its in enumerate(members)]}
+        seqcase.update(describe(c["items"], c["n"], rc))
+        cases.append(seqcase)
+        for m in seqcase["members"]:
+            chk.case_by_id[m["id"]] = seqcase
+        nmembers += len(members)
     chk.add_cases(cases)
 
-    events = execute_cases(execute, cases, repo=chk.repo, chunksize=64)
+    events = flatten(execute_cases(execute, cases, repo=chk.repo, chunksize=64))
     nrej = sum(1 for c in specs if c["rej"])
     raised_runs = sum(1 for e in events if e.get("op") == "run" and e.get("raised"))
     numfail = sum(1 for e in events if e.get("op") == "run" and e.get("raised") and e.get("exc") == "LinAlgError")
     chk.notes.update({"specifications": len(specs), "specifications_rejected_by_spec": nrej, "map_events": nmap,
-                      "run_events": len(cases) - nmap, "accepted_with_hard_request": len(accepted),
+                      "run_events": nrun + nmembers, "prox_events": nprox, "sequences": nseq, "sequence_members": nmembers,
+                      "accepted_with_hard_request": len(accepted),
                       "runs_raised": raised_runs, "runs_raised_numeric_failure": numfail,
                       "mapping_domain_exhaustive": True})
     chk.rule = ("binding 1: ALL %d specifications exported from TLC's design run of Constraints.tla (<=2 keywords x scalar/list/dict x every "
@@ -277,7 +355,10 @@ def run(chk, opts):
                 "binding 2: %d decomposition runs = every accepted single-keyword hard specification x %d run configurations drawn from "
                 "the spec's run domain (shape x rank x init{svd,random,user} x outer{1,2,5} x inner{1,10} x data{signed,sparse,allneg} x fixed_modes{every subset of 0..n-2} x via{function,ConstrainedCP}) + %d two-keyword "
                 "specifications stratified over (kinds, forms); distinct = distinct (specification, run configuration) pairs"
-                % (len(specs), nrej, len(cases) - nmap, per_single, got))
+                "; run domain also x outer 0 x data scale 2^{0,-70,-30,40} x dtype{float64,float32}; + %d proximal_operator events per "
+                "value regime; + %d sequences (%d runs) of 2-3 decompositions with the same keywords/modes and shifted parameters "
+                "executed back to back in one process"
+                % (len(specs), nrej, nrun, per_single, got, nprox, nseq, nmembers))
     for e in events:
         if "items" in e:
             chk.distinct.add(str((e["n"], e["items"], e.get("run"))))
@@ -287,18 +368,19 @@ def run(chk, opts):
     for rid, clause, extra in chk.validate("ConstraintsTrace", events):
         chk.violation(rid, clause, event=by_id.get(rid), extra=extra_of(by_id.get(rid), extra))
     chk.exhaustive = False      # the mapping domain is exhaustive, data / budgets are sampled
-    chk.assumptions += ["NumPy backend only", "a constraint requested on a fixed mode imposes nothing on the returned factor (documented: the initial value is not modified; C14)",
+    chk.assumptions += ["NumPy backend only", "a fixed mode is obliged only when the start is built-in (svd/random starts are documented to be projected; a user start is returned as supplied, C14)",
                         "inner budget >= 1 (admm(n_iter_max=0) raises before returning)",
                         "a LinAlgError raised by the linear solves carries no obligation (nothing is returned)",
                         "scope-ambiguous kinds (hard/normalised sparsity, max-normalisation, monotone direction): either documented reading accepted"]
-    if raised_runs - numfail == len(cases) - nmap and len(cases) > nmap:
+    if nrun and raised_runs - numfail >= nrun + nmembers:
         chk.machinery.append("vacuous: every decomposition run raised")
 
 
 def replay(chk, rec, opts):
-    case = rec["case"]
-    ev = execute(case)
-    chk.sample(ev)
+    case = rec["case"]          # a sequence is replayed as a whole, in this one process
+    evs = flatten([execute(case)])
+    chk.sample(evs[0])
     chk.add_cases([case])
-    for rid, clause, extra in chk.validate("ConstraintsTrace", [ev]):
-        chk.violation(rid, clause, case=case, event=ev, extra=extra_of(ev, extra))
+    by_id = {e["id"]: e for e in evs}
+    for rid, clause, extra in chk.validate("ConstraintsTrace", evs):
+        chk.violation(rid, clause, case=case, event=by_id.get(rid), extra=extra_of(by_id.get(rid), extra))
